@@ -79,7 +79,9 @@ func partialMappings(c *engine.Ctx, bin string, fails *int) {
 		c.Fail("correspondence", "lean driver failed: "+err.Error(), M{"broken": "driver"}, true)
 		return
 	}
-	declRe := func(name string) *regexp.Regexp { return regexp.MustCompile(`(?m)^type ` + regexp.QuoteMeta(name) + ` struct`) }
+	declRe := func(name string) *regexp.Regexp {
+		return regexp.MustCompile(`(?m)^type ` + regexp.QuoteMeta(name) + ` struct`)
+	}
 	for i, iv := range invs {
 		wd := filepath.Join(tmp, fmt.Sprint(i))
 		for name, data := range files {
